@@ -202,7 +202,10 @@ impl Janitor {
     guard.retain(|key, entry| {
       let key_hash = crate::store::hash_key(&context.store.hasher, key);
 
-      if expired_set.contains(&key_hash) {
+      // Timers are keyed by key hash and are not cancelled by every removal path (clear,
+      // capacity eviction), so a timer that fires may belong to an earlier entry of this key:
+      // only remove what has really expired.
+      if expired_set.contains(&key_hash) && entry.is_expired(context.time_to_idle) {
         context.cache_policy[shard_index].on_remove(key);
         context
           .metrics
